@@ -179,7 +179,7 @@ class Model:
                 self.prefixes.add(s[:k])
         self.proper_prefixes = sorted(self.prefixes - set(self.table))
         # documented key-name grammar: up to one each of the modifiers shift / meta / ctrl, then a base key
-        self.bases = {"tab", "enter", "backspace", "esc"}
+        self.bases = {"tab", "enter", "backspace", "esc", "window resize"}
         for name in self.table.values():
             self.bases.add(strip_modifiers(name)[1])
 
